@@ -72,11 +72,17 @@ def install_contracts():
 
 def plan(tier, seed):
     n = 14 if tier == "quick" else 46
-    return [{"n": 3000 if tier == "quick" else 30000} for _ in range(n)]
+    return [{"kind": "flags"}] + [{"n": 3000 if tier == "quick" else 30000} for _ in range(n)]
 
 
-def build_chain(ops, jsonpath):
+def build_chain(ops, jsonpath, pointer_objects=False):
     p = jsonpath.JSONPatch()
+    if pointer_objects:
+        ops = [dict(op) for op in ops]
+        for op in ops:
+            for k in ("path", "from"):
+                if k in op:
+                    op[k] = jsonpath.JSONPointer.from_parts(rp.decode(op[k]), unicode_escape=False)
     for op in ops:
         name = op["op"]
         if name in ("add", "addne", "addap", "replace", "test"):
@@ -169,7 +175,7 @@ def check(ctx, doc, ops, directed):
         return
     forms["dicts"] = f1.value
     text = json.dumps(ops)
-    for name, fn in (("text", lambda: jsonpath.JSONPatch(text)), ("file", lambda: jsonpath.JSONPatch(io.StringIO(text))), ("builder", lambda: build_chain(copy.deepcopy(ops), jsonpath)),
+    for name, fn in (("text", lambda: jsonpath.JSONPatch(text)), ("file", lambda: jsonpath.JSONPatch(io.StringIO(text))), ("builder", lambda: build_chain(copy.deepcopy(ops), jsonpath)), ("builder-with-pointer-objects", lambda: build_chain(copy.deepcopy(ops), jsonpath, pointer_objects=True)),
                      ("asdicts", lambda: jsonpath.JSONPatch(copy.deepcopy(f1.value.asdicts())))):
         o = impl.call(fn)
         if not o.ok:
@@ -237,6 +243,11 @@ def check(ctx, doc, ops, directed):
 def run(spec, ctx):
     install_contracts()
     r = ctx.rng
+    if spec.get("kind") == "flags":
+        from rt import flag_history
+
+        flag_history.run(ctx)
+        return
     for _ in range(spec["n"]):
         doc = copy.deepcopy(r.choice(DOCS))
         ops, directed = gen_ops(r, doc)
@@ -259,4 +270,9 @@ def finalize(m, tier):
 
 def replay(case, ctx):
     install_contracts()
+    if case.get("flags"):
+        from rt import flag_history
+
+        flag_history.run(ctx)
+        return
     check(ctx, case["doc"], case["ops"], True)
